@@ -414,12 +414,20 @@ func TestEngineIndexer(t *testing.T) {
 				}
 				if len(diffs) > 0 {
 					p.Oracle("C14-rpc-receipt", "JSON-RPC receipt differs from the consensus result (block %d pos %d class %s): %s", h, e.pos, obsClass(o), strings.Join(diffs, "; "))
+					for _, d := range diffs {
+						if strings.HasPrefix(d, "transactionIndex") || strings.HasPrefix(d, "log index") || strings.HasPrefix(d, "cumulativeGasUsed") {
+							// C13: numbering and running sums, as the receipts served for the block show them
+							p.Oracle("C13-served-receipt-numbering", "block %d pos %d (class %s): the receipt served for the transaction has %s", h, e.pos, obsClass(o), d)
+							break
+						}
+					}
 				}
 			}
 			if tx, err := backend.GetTransactionByHash(e.hash); err != nil || tx == nil {
 				p.Oracle("C14-tx-missing", "eth_getTransactionByHash finds nothing for an indexed transaction (block %d pos %d): %v", h, e.pos, err)
 			} else if tx.TransactionIndex == nil || uint64(*tx.TransactionIndex) != uint64(ethIdx) || tx.From != e.sender {
 				p.Oracle("C14-rpc-tx", "eth_getTransactionByHash reports another index / sender than consensus (block %d pos %d)", h, e.pos)
+				p.Oracle("C13-served-receipt-numbering", "block %d pos %d: the transaction is served with another index than its position among the Ethereum transactions that reached execution", h, e.pos)
 			}
 			logTotal += wantLogs
 			ethIdx++
